@@ -990,7 +990,7 @@ fn hammer(threads: usize, millis: u64, seed: u64) -> Value {
         }
     }
     // fresh shared runtimes: never-seen long arrays arrive at the aggregates from all threads at once
-    let rounds = (millis as usize) * 2;
+    let rounds = ((millis as usize) * 2).min(1500); // (in lock step a round with 32 threads takes tens of milliseconds)
     let mut fresh_rounds = 0u64;
     for round in 0..rounds {
         let rt = fresh();
